@@ -31,7 +31,7 @@ ASSUMPTIONS = ["for the empty trie nodes() may yield nothing or the single blank
 FLOORS = {
     "quick": {"next_queries": 30000, "next_none": 1000, "nodes_compared": 10000, "items_compared": 5000,
               "q_prefix_of_stored": 2000, "q_extension_of_stored": 2000, "q_stored": 3000,
-              "long_lived_judgements": 5000, "long_lived_in_batch": 500, "long_lived_root_reassigned": 300},
+              "interleaved_generators": 2000, "long_lived_judgements": 5000, "long_lived_in_batch": 500, "long_lived_root_reassigned": 300},
     "thorough": {"next_queries": 300000, "next_none": 10000, "nodes_compared": 100000,
                  "items_compared": 50000, "q_prefix_of_stored": 20000, "q_extension_of_stored": 20000,
                  "q_stored": 30000, "long_lived_judgements": 50000, "long_lived_in_batch": 5000,
@@ -78,6 +78,23 @@ def judge(it, t, model, ref, rnd, ctx, max_queries=None, where=""):
     if values != [model[k] for k in sk]:
         raise Violation("iter-values", "values() not the values in key order")
     ctx.count("items_compared", len(sk))
+    # several generators of the SAME iterator alive at once: each is its own walk
+    pairs = cut(lambda: list(zip(it.keys(), it.values())))
+    if pairs != [(k, model[k]) for k in sk]:
+        raise Violation("iter-interleaved", "zip(it.keys(), it.values()) = %d pairs %r..., sorted contents have %d" % (
+            len(pairs), [(hx(a), hx(b)[:8]) for a, b in pairs[:3]], len(sk)))
+    if sk:
+        def paused():
+            g = it.keys()
+            first_key = next(g)
+            inner = list(it.values())          # a complete second walk while the first is paused
+            also = it.next(first_key)          # and a successor query
+            return [first_key] + list(g), inner, also
+        outer, inner, also = cut(paused)
+        if outer != sk or inner != [model[k] for k in sk] or also != (sk[1] if len(sk) > 1 else None):
+            raise Violation("iter-interleaved", "a keys() walk paused around a values() walk of the same iterator yields %d keys (contents %d), the inner walk %d values" % (
+                len(outer), len(sk), len(inner)))
+    ctx.count("interleaved_generators")
     # nodes(): pre-order, each equal to traverse(prefix)
     nodes = cut(lambda: list(it.nodes()))
     exp = ref.preorder()
@@ -184,7 +201,10 @@ def run_shard(ctx):
     mod = sys.modules[__name__]
     n = 500 if ctx.tier == "quick" else 5000
     for i in range(n):
-        case = hs.gen_build(rnd, maxkeys=10 if ctx.tier == "quick" else 20)
+        bulk = i % 20 == 19
+        case = hs.gen_build(rnd, maxkeys=90, bulk=True) if bulk else hs.gen_build(rnd, maxkeys=10 if ctx.tier == "quick" else 20)
+        if bulk:
+            ctx.count("bulk_tries")
         case["pseed"] = rnd.randrange(1 << 30)
         if i == 1:
             ctx.sample(case)
